@@ -193,6 +193,10 @@ func HarnessL3() {
 		return // no methods / no json binding: nothing for the document checks to decide
 	}
 
+	// defaults that violate their own schema are outside the properties
+	if ps.hasDefault && !zzAssumeDefaultValid(ps) {
+		return
+	}
 	d := zzvrt.NewDoc()
 	zzTypeCorrectObject(d)
 	r, accepted, ok := zzRunT("C19.L3", h, rootType, "json", d)
